@@ -23,9 +23,17 @@ Dev_F6 == Last.tag = "null" /\ Last.dead
 C19_RouterFollowsTag ==
   Last.e = "route" => (RouteOK(Last) \/ ("F6" \in Known /\ Dev_F6 /\ NoteFinding("F6")))
 C19_SenderResolves == Last.e = "send" => SendOK(Last)
+\* C20: what is dispatched names exactly the task / carries exactly the promise that was supplied, also
+\* when the transport sends it after the sender has gone on with the next message
+C20_DispatchedAsSupplied ==
+  (Last.e = "send" /\ Last.handed /\ ~ Last.dead) =>
+     /\ Last.bodyType = Last.kind
+     /\ IF Last.kind = "notify" THEN Last.bodyPromiseId = Last.promiseId /\ ~ Last.bodyHasTask
+        ELSE Last.bodyHasTask /\ Last.bodyTaskId = Last.taskId /\ Last.bodyTaskCounter = Last.taskCounter
 Complete ==
   (l = Len(TraceLog) + 1) =>
      /\ \A tc \in TagCases : <<"route", tc.v>> \in seenVec
+     /\ \A st \in SourceTables, ts \in TagSets : <<"route", st.name \o "/" \o ts.name>> \in seenVec
      /\ \A v \in SendVectors : <<"send", v.table, v.recv, v.kind>> \in seenVec
 TraceAccepted ==
   LET d == TLCGet("stats").diameter IN
